@@ -1,8 +1,11 @@
 """C06 - WSGI, ASGI and the test client are observationally equivalent."""
 PROP = 'C06'
-LEAN_MODULES = ['FalconModel.FinalizeProofs', 'FalconModel.FinalizeProofs2', 'FalconModel.FinalizeReaderProofs', 'FalconModel.WireProofs', 'FalconModel.WirePathProofs', 'FalconModel.ReqMemoProofs']
-DRIVERS = ['fzdriver', 'wrdriver', 'rmdriver']
+LEAN_MODULES = ['FalconModel.FinalizeProofs', 'FalconModel.FinalizeProofs2', 'FalconModel.FinalizeReaderProofs', 'FalconModel.WireProofs', 'FalconModel.WirePathProofs', 'FalconModel.ReqMemoProofs',
+                'FalconModel.ReqUrl', 'FalconModel.ReqUrlProofs']
+DRIVERS = ['fzdriver', 'wrdriver', 'rmdriver', 'rudriver']
 THEOREMS = [
+    # request side, URL composition (model Ru, shared with C09): an environ and a scope describing the same request agree on all thirteen URL properties under every read order
+    'Ru.wsgi_asgi_agree', 'Ru.wsgi_asgi_core', 'Ru.agree_netloc',
     # response side: the two finalization tails agree on every response state (relational theorem) ...
     'Fz.wsgi_asgi_agree',
     # ... and therefore every single-stack statement of C05 transfers (proved *through* the agreement theorem)
@@ -44,6 +47,7 @@ THEOREMS = [
     'Wq.strict_server_witness',
 ]
 STATEMENTS = {
+    'Ru.wsgi_asgi_agree': 'URL composition: if a WSGI environ and an ASGI scope describe the same request (same scheme other than wss, same Host header, same server name with SERVER_PORT = str(port), same root path, path, query string, strip option, Forwarded / X-Forwarded-Proto / X-Forwarded-Host headers), every sequence of reads of scheme, netloc, host, root_path, subdomain, forwarded, forwarded_scheme, forwarded_host, forwarded_uri, forwarded_prefix, uri, relative_uri and prefix returns the same values on falcon.Request and falcon.asgi.Request (the six memo cells included)',
     'Fz.wsgi_asgi_agree': 'for every response state (status, text, data, rendered media, stream kind/chunks/failing call, header dict in insertion order, cookies) and configuration (HEAD, default media type, file_wrapper): falcon.App.__call__ and falcon.asgi.App.__call__ hand the server the same status, the same header list in the same order, the same payload bytes and propagate a stream failure identically',
     'Fz.asgi_body_precedence': 'the ASGI payload obeys the same precedence text > data > media > stream as the WSGI one (corollary of the agreement theorem)',
     'Fz.asgi_content_length_exact': 'the ASGI Content-Length is exact under the same conditions as the WSGI one (corollary)',
@@ -182,7 +186,7 @@ RULE = ('random wire-level requests: method x path from 0-4 segments (plain, per
 PARTIAL = ('The Lean theorems cover the response side (finalization of any response state is identical on both stacks) and, on the request side, (1) the header stores: get_header, headers / headers_lower, '
            'content_type, content_length agree for every header list of the domain (Wr.*), and (2) the request line and the connection: method, path, query_string, params, root_path / app, scheme, host, port, netloc, '
            'remote_addr, access_route agree for every wire request of the domain and every liberty of the servers, incl. scope["client"] = None (Wq.request_view_agree; path and scheme without any hypothesis; the method / query / mount-point / '
-           'client-address exclusions proved exact, the others necessary); (3) the memoized accessors: under every history of reads on one request object (any order, any repetition) every read returns the value its accessor computes, on both classes, so the agreement of the stacks does not depend on the order of reads (Rm.*; the values computed by accessors outside Wr / Wq are a parameter of these theorems); and on the response side also file-like streams by their read contract: every short-read pattern is delivered completely and identically by both stacks (Fr.*). The remaining request attributes (uri / url / relative_uri / prefix and the forwarded_* family, subdomain, typed header accessors, cookies, body, media), the http_version '
+           'client-address exclusions proved exact, the others necessary); (3) the memoized accessors: under every history of reads on one request object (any order, any repetition) every read returns the value its accessor computes, on both classes, so the agreement of the stacks does not depend on the order of reads (Rm.*; the values computed by accessors outside Wr / Wq are a parameter of these theorems); and on the response side also file-like streams by their read contract: every short-read pattern is delivered completely and identically by both stacks (Fr.*). (4) URL composition: uri / url / relative_uri / prefix, the forwarded_* family, scheme, netloc, host, root_path and subdomain agree on both stacks for every environ / scope pair describing the same request and every read order (Ru.wsgi_asgi_agree; model Ru shared with C09, tied here by its own rudriver session on both stacks). The remaining request attributes (typed header accessors, cookies, body, media), the http_version '
            '(no Request attribute on either stack; only falcon.asgi.App validates scope["http_version"]) and the equivalence of falcon.testing (simulate_request, simulate_<verb>, TestClient, ASGIConductor; sequences of requests on one client object) '
            'with the spec-faithful drivers rest on the differential comparison only (translation-validation strength, not proof).')
 JOBS = {'quick': 4, 'thorough': 16}
@@ -1715,6 +1719,142 @@ def target_part(ctx, rnd, falcon, H, json):
         if not any(n == 'host' for n in lows):
             ctx.count('tgt_without_Host_header')
         ctx.seen(json.dumps(['tgt', case], sort_keys=True, default=repr), b'%' in target or bool(query_b) or 'host' not in lows)
+    sess.finish()
+    _url_views(ctx)
+
+
+def _url_views(ctx):
+    """(8) URL composition. An environ and a scope that describe the same request in the sense of the hypotheses of Ru.wsgi_asgi_agree (same scheme
+    other than wss, same Host header, same server name with SERVER_PORT = str(port), same mount point / path / query string, same Forwarded and
+    X-Forwarded-* headers, same strip option): the thirteen URL properties are read in one random order on falcon.Request and falcon.asgi.Request;
+    every read of either stack is compared with the Ru model (rudriver `wsgi ...` / `asgi ...` lines, memo cells included), and the statement oracle
+    demands that the two stacks answer every read alike."""
+    import falcon
+    import falcon.asgi
+    import falcon.testing as ft
+    from runner import hx
+    rnd = ctx.rng
+    sess = ctx.session('URL composition of one request on both stacks: falcon.Request(environ) and falcon.asgi.Request(scope) = Ru model '
+                       '(scheme, netloc, host, root_path, subdomain, forwarded, forwarded_scheme / _host / _uri / _prefix, uri, relative_uri, prefix; any read order)', 'rudriver')
+    ORACLE = 'URL composition: an environ and a scope describing the same request give the same value for every read of the thirteen URL properties'
+
+    def hs(x):
+        return hx(x.encode('latin-1'))
+
+    def show_opt(v):
+        return 'none' if v is None else hs(v)
+
+    CODES = {'sc': 'scheme', 'nl': 'netloc', 'ho': 'host', 'rp': 'root_path', 'sd': 'subdomain', 'fw': 'forwarded', 'fs': 'forwarded_scheme',
+             'fh': 'forwarded_host', 'ru': 'relative_uri', 'pf': 'prefix', 'fp': 'forwarded_prefix', 'ur': 'uri', 'fu': 'forwarded_uri'}
+
+    def read(req, attr):
+        try:
+            v = getattr(req, attr)
+        except falcon.HTTPError as e:
+            return ('http', int(str(e.status)[:3]))
+        except Exception as e:  # noqa
+            return ('EXC', type(e).__name__ + ': ' + str(e)[:80])
+        if attr == 'forwarded':
+            v = None if v is None else [(f.src, f.dest, f.host, f.scheme) for f in v]
+        return ('ok', v)
+
+    def rd_val(code, r):
+        if r[0] == 'http': return 'bad'
+        if r[0] != 'ok': return 'EXC'
+        v = r[1]
+        if code == 'fw': return 'none' if v is None else 'els' + ''.join(',' + '|'.join(show_opt(x) for x in e) for e in v)
+        if code == 'sd' and v is None: return 'none'
+        if not isinstance(v, str) or any(ord(ch) > 255 for ch in v): return 'PY ' + repr(v).replace(' ', '_')
+        return hs(v)
+
+    HOSTS = [None, None, 'example.com', 'example.com:80', 'example.com:443', 'a.b.example:8080', 'sub.example.com', 'localhost', '192.0.2.7:0', '[::1]', '[2001:db8::1]:8443',
+             'x', 'EXAMPLE.com', 'h:', 'example.com:abc', 'a:b:c', '[::1', ':80', 'h:+80', 'h:1_0']
+    NODES = ['1.2.3.4', '"1.2.3.4:5678"', '"[2001:db8::17]"', '"[::1]:80"', 'unknown', '_hidden', '"_a:_b"']
+
+    def gen_forwarded():
+        elems = []
+        for _ in range(rnd.randint(1, 3)):
+            pairs = []
+            for k in rnd.sample(['for', 'by', 'host', 'proto'], rnd.randint(1, 4)):
+                kk = ''.join(rnd.choice([c.lower(), c.upper()]) for c in k)
+                v = rnd.choice(NODES) if k in ('for', 'by') else rnd.choice(['fh.example', '"a.b:8080"', '""', 'h', '"q \\"x"']) if k == 'host' else rnd.choice(['http', 'https', 'HTTPS', 'wss', '""'])
+                pairs.append(kk + '=' + v)
+            elems.append(rnd.choice([';', '; ']).join(pairs))
+        return rnd.choice([', ', ',', ' ,', ',\t']).join(elems)
+
+    for _ in range(ctx.n(1200, 12000)):
+        scheme = rnd.choice(['http', 'http', 'https', 'https', 'HTTPS', 'ws', 'Http'])
+        hostv = rnd.choice(HOSTS)
+        sname = rnd.choice(['srv.example', 'localhost', '10.0.0.1', '::1', 'a.b.c'])
+        sport = rnd.choice([80, 443, 80, 443, 8000, 8443, 0, 65535])
+        root = rnd.choice([None, '', '', '/app', '/a/b', 'noslash'])
+        path = rnd.choice(['/', '', '/p/q', '/p/q/', '//', '/x/', '/a?b'])
+        strip = rnd.random() < 0.4
+        query = rnd.choice(['', '', 'x=1', 'a=b&c=d', '?', None])
+        k = rnd.random()
+        fwd = None if k < 0.4 else gen_forwarded() if k < 0.8 else rnd.choice(['', 'proto=HTTPS;host=fh.example', 'for=1.2.3.4', 'host=""', 'proto=""', 'proto=""; host=x',
+                                                                                'host=a.b;proto=wss, proto=http', ',proto=https', 'by=x', 'garbage;;,', 'for="[::1"', 'for=;', 'for'])
+        xfp = rnd.choice([None, None, 'https', 'HTTPS', 'Http', ''])
+        xfh = rnd.choice([None, None, 'fh.example', 'a:b', '', 'x.y:8080'])
+        hdrs = [(n, v) for n, v in (('Host', hostv), ('Forwarded', fwd), ('X-Forwarded-Proto', xfp), ('X-Forwarded-Host', xfh)) if v is not None]
+        reqs = {}
+        # WSGI
+        opts = falcon.RequestOptions(); opts.strip_url_path_trailing_slash = strip
+        env = ft.create_environ(path='/', scheme='http', host='h', port=1)
+        env.pop('HTTP_HOST', None)
+        env['wsgi.url_scheme'] = scheme; env['SERVER_NAME'] = sname; env['SERVER_PORT'] = str(sport)
+        env['PATH_INFO'] = path
+        if root is None: env.pop('SCRIPT_NAME', None)
+        else: env['SCRIPT_NAME'] = root
+        if query is None: env.pop('QUERY_STRING', None)
+        else: env['QUERY_STRING'] = query
+        for n, v in hdrs: env['HTTP_' + n.upper().replace('-', '_')] = v
+        lines = {'wsgi': (f'wsgi {hs(scheme)} {show_opt(hostv)} {hs(sname)} {hs(str(sport))} {show_opt(root)} {hs(path)} {1 if strip else 0} {show_opt(query)} '
+                          f'{show_opt(fwd)} {show_opt(xfp)} {show_opt(xfh)}')}
+        try:
+            reqs['wsgi'] = falcon.Request(env, options=opts)
+        except Exception as e:  # noqa
+            reqs['wsgi'] = e
+        # ASGI: the same request
+        opts2 = falcon.RequestOptions(); opts2.strip_url_path_trailing_slash = strip
+        scope = ft.create_scope(path='/', scheme='http', host='h', port=1)
+        scope['scheme'] = scheme
+        scope['server'] = rnd.choice([(sname, sport), [sname, sport]])
+        scope['path'] = path
+        if root is None: scope.pop('root_path', None)
+        else: scope['root_path'] = root
+        scope['query_string'] = (query or '').encode('utf-8')
+        scope['headers'] = [(n.lower().encode('latin-1'), v.encode('latin-1')) for n, v in hdrs]
+
+        async def receive():
+            return {'type': 'http.request'}
+        lines['asgi'] = (f'asgi {show_opt(scheme)} 0 {show_opt(hostv)} {hs(sname)} {sport} {show_opt(root)} {hs(path)} {1 if strip else 0} {hs(query or "")} '
+                         f'{show_opt(fwd)} {show_opt(xfp)} {show_opt(xfh)}')
+        try:
+            reqs['asgi'] = falcon.asgi.Request(scope, receive, options=opts2)
+        except Exception as e:  # noqa
+            reqs['asgi'] = e
+        order = [rnd.choice(list(CODES)) for _ in range(rnd.randint(4, 14))]
+        got = {}
+        for stack in ('wsgi', 'asgi'):
+            if isinstance(reqs[stack], Exception):
+                got[stack] = [('EXC', 'constructor: ' + type(reqs[stack]).__name__)] * len(order)
+            else:
+                got[stack] = [read(reqs[stack], CODES[c]) for c in order]
+            sess.case({'stack': stack, 'line': lines[stack], 'order': order})
+            sess.op(lines[stack] + ' ' + ','.join(order), ' '.join(rd_val(c, r) for c, r in zip(order, got[stack])))
+        bad = None
+        for c, rw, ra in zip(order, got['wsgi'], got['asgi']):
+            if repr(rw) != repr(ra):
+                bad = f'req.{CODES[c]}: WSGI {rw!r}, ASGI {ra!r} (read order {[CODES[x] for x in order]})'
+                break
+        case = {'scheme': scheme, 'host_header': hostv, 'server': [sname, sport], 'root_path': root, 'path': path, 'strip_url_path_trailing_slash': strip,
+                'query_string': query, 'forwarded': fwd, 'x_forwarded_proto': xfp, 'x_forwarded_host': xfh, 'reads': [CODES[c] for c in order]}
+        ctx.oracle(ORACLE, bad is None, bad, case)
+        ctx.seen(('url', scheme, hostv, sname, sport, root, path, strip, query, fwd, xfp, xfh, tuple(order)), fwd is not None or hostv is not None)
+        ctx.count('url_cases')
+        ctx.count('url_forwarded_' + ('absent' if fwd is None else 'present'))
+        ctx.count('url_host_header_' + ('absent' if hostv is None else 'present'))
     sess.finish()
 
 
